@@ -3,6 +3,7 @@
 -/
 import Aquatic.Props.Store
 import Aquatic.Model.Acl
+import Aquatic.Spec.AclFile
 
 namespace Aquatic.C11
 
@@ -147,6 +148,65 @@ theorem gstep_refines (cfg : StoreCfg) (mode : AclMode) (s : TState) (r : RT) (l
       · simp only [grefStep, GOutRel]
         cases out <;> cases hr : (refStep cfg r (.cln now (aclAllows mode list))).2 <;>
           simp_all [OutRel]
+
+/-! ### the file format, against its statement -/
+
+theorem hexValue_isSome (s : List Char) : (hexValue s).isSome = s.all (fun c => (hexVal c).isSome) := by
+  induction s with
+  | nil => rfl
+  | cons c t ih =>
+    simp only [hexValue, List.all_cons, ← ih]
+    cases hexVal c <;> cases hexValue t <;> simp [bind, Option.bind, pure]
+
+theorem parseInfoHash_isSome (s : List Char) :
+    (parseInfoHash s).isSome = (decide (s.length = 40) && s.all (fun c => (hexVal c).isSome)) := by
+  unfold parseInfoHash
+  by_cases h : s.length = 40
+  · simp [h, hexValue_isSome]
+  · simp [h]
+
+/-- **the parser decides exactly well-formedness and yields exactly the listed hashes**: a file loads iff
+every line is readable and blank or forty hex digits once trimmed (so blank and white-space-only lines,
+padding, either case never make a file fail), and then the list is the hashes of its non-blank lines in order -/
+theorem createFromLines_spec (lines : List (Option (List Char))) :
+    createFromLines lines = if AclSpec.fileOk lines then some (AclSpec.hashes lines) else none := by
+  induction lines with
+  | nil => rfl
+  | cons x t ih =>
+    cases x with
+    | none => simp [createFromLines, AclSpec.fileOk, AclSpec.lineOk]
+    | some l =>
+      simp only [createFromLines, AclSpec.fileOk, List.all_cons, AclSpec.lineOk, AclSpec.hashes, List.filterMap_cons] at ih ⊢
+      by_cases hb : (trimWs l).isEmpty = true
+      · simp only [hb, if_true, Bool.true_or, Bool.true_and]
+        exact ih
+      · have hb' : (trimWs l).isEmpty = false := by simpa using hb
+        have hp := parseInfoHash_isSome (trimWs l)
+        cases hq : parseInfoHash (trimWs l) with
+        | none =>
+          rw [hq] at hp
+          have : (decide ((trimWs l).length = 40) && (trimWs l).all (fun c => (hexVal c).isSome)) = false := by
+            simpa using hp.symm
+          simp [hb', this]
+        | some h =>
+          rw [hq] at hp
+          have : (decide ((trimWs l).length = 40) && (trimWs l).all (fun c => (hexVal c).isSome)) = true := by
+            simpa using hp.symm
+          simp only [hb', this, Bool.false_or, Bool.true_and, ih]
+          by_cases hf : t.all AclSpec.lineOk = true <;> simp [hf]
+
+/-- a reload, as the code performs it, has exactly the stated effect -/
+theorem reload_meets_statement (mode : AclMode) (cur : List Nat) (file : Option (List (Option (List Char)))) :
+    updateAccessList mode cur file = AclSpec.afterReload mode cur file := by
+  unfold updateAccessList AclSpec.afterReload aclUpdate
+  by_cases hm : mode = .off
+  · simp [hm]
+  · simp only [hm, if_false]
+    cases file with
+    | none => rfl
+    | some lines =>
+      simp only [createFromLines_spec]
+      by_cases hf : AclSpec.fileOk lines = true <;> simp [hf]
 
 /-! ### non-vacuity -/
 
